@@ -646,3 +646,34 @@ pub fn record_follow(output: &str) {
     }
     out.finish();
 }
+
+/// debug ik <params json> <q in AU json> [<previous in AU json>]: the bare robot's answers for the pose of q
+pub fn debug_ik(params: &str, q: &str, prev: Option<&str>) {
+    let v: Value = serde_json::from_str(params).unwrap();
+    let g = |k: &str| v[k].as_f64().unwrap();
+    let mut p = robots::params(g("a1"), g("a2"), g("b"), g("c1"), g("c2"), g("c3"), g("c4"));
+    for i in 0..6 { p.offsets[i] = v["offsets"][i].as_f64().unwrap(); p.sign_corrections[i] = v["signs"][i].as_i64().unwrap() as i8; }
+    p.dof = v["dof"].as_i64().unwrap_or(6) as i8;
+    let au = |s: &str| -> Joints { let a: Vec<i64> = serde_json::from_str(s).unwrap(); std::array::from_fn(|i| au2rad(a[i])) };
+    let q = au(q);
+    let layers: Vec<LayerF> = match std::env::var("DEBUG_TOOL") {
+        Ok(t) => { let c: Vec<f64> = t.split(',').map(|x| x.parse().unwrap()).collect();
+                   vec![LayerF::Tool(Iso { r: oracle::rot('x', c[3]), t: [c[0], c[1], c[2]] })] }
+        Err(_) => match std::env::var("DEBUG_TOOL12") {
+            Ok(t) => { let c: Vec<f64> = t.split(',').map(|x| x.trim().parse().unwrap()).collect();
+                       vec![LayerF::Tool(Iso { r: [[c[0], c[1], c[2]], [c[3], c[4], c[5]], [c[6], c[7], c[8]]], t: [c[9], c[10], c[11]] })] }
+            Err(_) => vec![],
+        },
+    };
+    let robot = Robot::new(p, layers, None);
+    let k = robot.kin.clone();
+    let pose = robot.ofk(&q).to_na();
+    println!("oracle vs forward: {:?}", Iso::from_na(&k.forward(&q)).dpos(&robot.ofk(&q)));
+    println!("inverse:");
+    for a in k.inverse(&pose) { println!("  {:?}", au6(&a)); }
+    if let Some(pv) = prev {
+        let pv = au(pv);
+        println!("inverse_continuing:");
+        for a in k.inverse_continuing(&pose, &pv) { println!("  {:?}", au6(&a)); }
+    }
+}
